@@ -44,6 +44,8 @@ type World struct {
 
 	// Delay, if set, returns how long node n waits before answering its k-th command.
 	Delay func(node, k int) time.Duration
+	// DelayCmd, if set, returns the reply delay for a specific command (overrides Delay).
+	DelayCmd func(node int, args [][]byte) time.Duration
 	// Hostile, if set and returning non-nil, replaces the reply to a command by raw bytes.
 	Hostile func(n *Node, args [][]byte) []byte
 	// ClusterDown makes every keyed command answer -CLUSTERDOWN.
@@ -668,6 +670,9 @@ func (n *Node) handle(nc *nodeConn, args [][]byte) (reply []byte, closeAfter boo
 	if w.Delay != nil {
 		delay = w.Delay(n.Idx, n.cmdCount)
 	}
+	if w.DelayCmd != nil {
+		delay = w.DelayCmd(n.Idx, args)
+	}
 	finish := func(v ref.Value, outcome string) ([]byte, bool, time.Duration, *Entry) {
 		e.Outcome = outcome
 		out := ref.Enc(v)
@@ -890,4 +895,16 @@ func (w *World) AcceptsOf(i int) int {
 	w.mu.Lock()
 	defer w.mu.Unlock()
 	return w.Nodes[i].Accepts
+}
+
+// AllAddrs returns the addresses of every node (masters and replicas): the endpoint
+// list of the service as a discovery source would publish it.
+func (w *World) AllAddrs() []string {
+	w.mu.Lock()
+	defer w.mu.Unlock()
+	r := make([]string, 0, len(w.Nodes))
+	for _, n := range w.Nodes {
+		r = append(r, n.Addr)
+	}
+	return r
 }
